@@ -1175,7 +1175,8 @@ static bool compile_builtin_call(CG *cg, ASTNode *node) {
         emit_op(cg, OP_HM_HAS);
         return true;
     }
-    if (strcmp(name, "map_delete") == 0 && argc == 2) {
+    /* map_remove is the documented name (docs/STDLIB.md; the type checker, the evaluator and the native backend know it) */
+    if ((strcmp(name, "map_delete") == 0 || strcmp(name, "map_remove") == 0) && argc == 2) {
         compile_expr(cg, args[0]);
         compile_expr(cg, args[1]);
         emit_op(cg, OP_HM_DELETE);
